@@ -13,12 +13,12 @@ for d in sorted(glob.glob('/verif/seeded/*/')):
     rows.append(f"| {name} | {m['property']} | {', '.join(m.get('detected_by_checks', []))} | {'a check missed it; caught after strengthening' if strengthened else 'caught'} | {summ} |")
 intro = f"""### 8.7 Seeded changes from independent sub-agents (`/verif/seeded/<name>/`)
 
-Seven rounds of fresh sub-agents, each given only the text of one property and its own scratch worktree
+Eight rounds of fresh sub-agents, each given only the text of one property and its own scratch worktree
 (round 2 was steered towards timing / fallback / cleanup bugs, round 3 towards boundary and combination
 bugs, rounds 4 and 5 (`R4-`, `R5-`) away from everything earlier rounds had produced,\nround 6 (`R6-`) towards the code that the audit-round fixes added or reworked: rarely seen but legal
 kernel-visible states, error paths taken only after an earlier soft failure, integer widths, second
 occurrences, round 7 (`R7-`) again towards the code of the last audit-wave fixes, with a list of every
-earlier change to avoid). Every change was confirmed by `tools/seeded.sh` in a scratch worktree before being kept: the
+earlier change to avoid; round 8 (`R8-`) the same for the fifth audit wave's fixes). Every change was confirmed by `tools/seeded.sh` in a scratch worktree before being kept: the
 patch applies to `/repo` HEAD, the repository's 42 tests still pass with it, the agent's demonstration passes
 on the clean tree and fails with the patch. **{len(rows)} changes are kept; all are caught now.** For {missed_first} of them
 at least one check that should have caught the change missed it when first run (recorded in the
@@ -37,7 +37,10 @@ in pages the target cannot read, mappings and stacks below the executable, execu
 images, negative `si_code`. Round 7 added: images whose first segment is not page aligned (`ld -n`), a
 reserved gap that follows no executable part, an old deleted image + gap + replacement, library text made
 `PROT_NONE` from its second page on, a dump with one flush above 1 GiB (C01/C09/C10) and the image above
-4 GiB in C10, with an overlap clause in the C10 prefix oracle.
+4 GiB in C10, with an overlap clause in the C10 prefix oracle. Round 8 added: version suffixes with a fourth
+alphanumeric component, caller mappings whose `system_mapping_info` is left zeroed, a deleted program whose path
+holds a different file with a SONAME, something readable mapped behind an overflowed stack (and the clause that a
+stack region found above a guard ends in the mapping it begins in).
 
 | seeded change | property | caught by | first run | what the change does |
 |---|---|---|---|---|
